@@ -34,11 +34,11 @@ var propSpecs = []propSpec{
 		id: "C02",
 		runs: []runSpec{
 			{dir: "mux", entry: "ZZC02",
-				quick:    []int{8, 108, 208, 308, 408, 508, 608, 708, 808, 908, 1008, 1108, 1208, 1308, 1408, 1508, 1608, 1708, 1908, 2008, 2108, 2308, 2408, 2508, 2608, 2708},
-				thorough: []int{10, 110, 210, 310, 410, 510, 610, 710, 810, 910, 1010, 1110, 1210, 1310, 1410, 1510, 1610, 1710, 1806, 1910, 2010, 2110, 2208, 2310, 2410, 2510, 2610, 2710}},
+				quick:    []int{8, 108, 208, 308, 408, 508, 608, 708, 808, 908, 1008, 1108, 1208, 1308, 1408, 1508, 1608, 1708, 1908, 2008, 2108, 2308, 2408, 2508, 2608, 2708, 2808, 2908},
+				thorough: []int{10, 110, 210, 310, 410, 510, 610, 710, 810, 910, 1010, 1110, 1210, 1310, 1410, 1510, 1610, 1710, 1806, 1910, 2010, 2110, 2208, 2310, 2410, 2510, 2610, 2710, 2810, 2910}},
 		},
 		covers:  []string{"404", "matched", "matched-with-params"},
-		bounds:  "request path: every byte string of length <= 8; 26 add-only route tables (8 selections of 3-4 patterns from a 15-pattern pool plus a 6-literal-sibling bundle, each in two registration orders; 6 tables aimed at the first-byte index with a failing indexed literal, deep literal splits, one parameter with several suffixes, endpoint vs continuing parameters); reference = a resolver over the pattern strings that never builds a tree and returns the set of admissible outcomes",
+		bounds:  "request path: every byte string of length <= 8; 28 add-only route tables (8 selections of 3-4 patterns from a 15-pattern pool plus a 6-literal-sibling bundle, each in two registration orders; 6 tables aimed at the first-byte index with a failing indexed literal, deep literal splits, one parameter with several suffixes, endpoint vs continuing parameters); reference = a resolver over the pattern strings that never builds a tree and returns the set of admissible outcomes",
 		boundsT: "as quick with request path length <= 10, plus a table with four parameter kinds among >=5 children (length <= 6) and one with the three bundled interceptors at one position (length <= 8)",
 		outside: "longer paths; other tables; regexp rules whose alphabet overlaps the first byte of the literal that follows them; user-defined interceptors; paths \"\" and \"*\"",
 		assume:  []string{"patterns are well-formed", "method GET only (method handling is C01/C03/C08)"},
@@ -59,10 +59,10 @@ var propSpecs = []propSpec{
 	{
 		id: "C04",
 		runs: []runSpec{
-			{dir: "mux", entry: "ZZC04", quick: []int{1, 2, 3, 101, 102, 103, 1001, 1002, 1003, 1101, 1102, 1103}, thorough: []int{1, 2, 3, 4, 101, 102, 103, 104, 1001, 1002, 1003, 1004, 1101, 1102, 1103, 1104}, mapRev: true},
+			{dir: "mux", entry: "ZZC04", quick: []int{1, 2, 3, 101, 102, 103, 1001, 1002, 1003, 1101, 1102, 1103, 2001, 2002, 2003, 2102}, thorough: []int{1, 2, 3, 4, 101, 102, 103, 104, 1001, 1002, 1003, 1004, 1101, 1102, 1103, 1104, 2001, 2002, 2003, 2004, 2103}, mapRev: true},
 		},
 		covers:  []string{"history", "options-allow", "405-allow"},
-		bounds:  "2 operation alphabets of 10 operations (registrations that split nodes after methods were registered, removal of all / of single / of never-registered methods, Clean, Prefix.Clean, Any), every history of <= 3 operations, with and without WithTrace, both map iteration orders; after the last step, for every live pattern: Allow of OPTIONS and of 405 (read through the node captured by the builder), Node().Methods()/AllowHeader(), Routes(), for every request reaching the route (parameter values symbolic, <= 2 bytes); OPTIONS * on every state including the brand-new router",
+		bounds:  "3 operation alphabets of 9-10 operations, the third after a 3-route setup with a split literal node (registrations that split nodes after methods were registered, removal of all / of single / of never-registered methods, Clean, Prefix.Clean with prefixes ending on a node boundary / inside a segment / on the parent, Any), every history of <= 3 operations, with and without WithTrace, both map iteration orders; after the last step, for every live pattern: Allow of OPTIONS and of 405 (read through the node captured by the builder), Node().Methods()/AllowHeader(), Routes(), for every request reaching the route (parameter values symbolic, <= 2 bytes); OPTIONS * on every state including the brand-new router",
 		boundsT: "as quick with histories of <= 4 operations",
 		outside: "longer histories, other pattern pools",
 		stubs:   stdStubs,
